@@ -180,6 +180,15 @@ func genProxiedRequest(r *core.Rand, id, limit int) ReqSpec {
 	if sp.Proto == "http" && r.Chance(1, 2) {
 		sp.Fault.Err = "ueof"
 	}
+	addZeroMessages(r, &sp)
+	// gzip on the front leg (the proxy's request pump then decompresses in
+	// RecvMsg while the reply loop compresses in SendMsg)
+	if strings.HasPrefix(sp.Proto, "grpc") && r.Chance(1, 3) {
+		sp.Compress = true
+		for i := range sp.Msgs {
+			sp.Msgs[i].Plain = r.Chance(1, 4) || sp.Msgs[i].Zero
+		}
+	}
 	// a second and third binary key
 	if r.Chance(1, 3) {
 		sp.MD = append(sp.MD, [2]string{"X-Second-Bin", binValue(r, patternBytes(r.U64(), 1+r.Intn(20)))})
